@@ -1,14 +1,9 @@
 # Per-property metadata used by ./check (evidence texts) and tools/mkmanifest.py.
-COMMON_TRUST = []
-
-PROPS = {
- "C16": {
-  "level_text": "Machine-checked Coq theorems (Props/C16.v) over an executable model of monogfx.go's drawing code, for every canvas size, bounding box, coordinate and op list: buffer length and padding bits invariant, changes confined to footprint and clip rectangle, exactness of pixel/line/filled-rectangle ops. The model is tied to /repo on every run by running the extracted model and the Go implementation on the same op sequences (exhaustive small scopes + seeded random) and by judging the implementation's buffers with the extracted spec predicate.",
-  "level_note": "Trusted: Coq kernel; hand-written model Model/Mono.v (tied by differential execution, not by translation); Go integer semantics as modelled; extraction with ExtrOcamlBasic; Go harness and OCaml line driver. Font tables regenerated from fonts.go each run.",
-  "rule": "exhaustive single drawing ops (pixels: every coordinate of a window around 24 small canvases x 7 bounding boxes x inversion x prefill; lines, rectangles, rounded rectangles, corner helpers on coordinate/size grids) chunked into op sequences, plus seeded random bitmap, text and mixed op sequences on canvases up to 64x64 with coordinates far outside; a case is one op sequence with the implementation's buffer after every op; non-trivial = at least one op of the sequence changed at least one pixel; distinct = distinct case text",
-  "assumptions": ["Go int is 64-bit; canvas sizes >= 0 (make() panics on negative sizes, outside the property)",
-                  "model of monogfx.go drawing code is hand-written (Model/Mono.v) and tied by step-by-step buffer comparison",
-                  "font tables regenerated from fonts.go on every run (Gen/Fonts.v)"],
-  "trusted": ["modelled rather than verified: Go integer semantics (truncating / and %, byte shifts wrapping to 0), range-over-string UTF-8 decoding (Lib/Utf8.v)"],
- },
-}
+# One JSON file per property in lib/props/Cnn.json with keys:
+#   level_text, level_note, rule, assumptions[], trusted[], harness_dir,
+#   optional: harness (sub-command name, default Cnn), run (Run/<name>.v, default Cnn),
+#   extract (extract/<name>.v, default = run), technique, design_ref
+import json, os, glob
+PROPS = {}
+for _f in sorted(glob.glob(os.path.join(os.path.dirname(os.path.abspath(__file__)), "props", "C*.json"))):
+    PROPS[os.path.basename(_f)[:-5]] = json.load(open(_f))
